@@ -311,3 +311,76 @@ func GCGuard(p Program, g Guard) Guard {
 	}
 	return g
 }
+
+// undoTop returns the history entry an undo/redo step would execute.
+func undoTop(d *document.Document, s Step) []document.HistoryOperation {
+	switch s.Op {
+	case "undo":
+		return d.UndoStackTopForTest()
+	case "redo":
+		return d.RedoStackTopForTest()
+	}
+	return nil
+}
+
+// GuardF49 — an undo/redo operation that targets a container the undoing
+// client already knows to be removed (e.g. a counter increase undone after a
+// peer's undo removed the counter): only Set and Remove are skipped in that
+// situation, every other operation kind is executed and pushed; a peer that has
+// purged the container can never apply it ('not applicable datatype' on every
+// later sync; upstream issue 'GC vs undo').
+func GuardF49(d *document.Document, s Step) (Step, string) {
+	root := d.InternalDocument().Root()
+	for _, h := range undoTop(d, s) {
+		if h.Op == nil {
+			continue
+		}
+		switch h.Op.(type) {
+		case *operations.Set, *operations.Remove:
+			continue // these are skipped by the code under test itself
+		}
+		parent := root.FindByCreatedAt(h.Op.ParentCreatedAt())
+		if parent == nil || parent.RemovedAt() != nil {
+			return Step{}, "F49"
+		}
+	}
+	return s, ""
+}
+
+// GuardF33 — an undo/redo that RESTORES removed text/tree content by identity
+// (restore mode) revives the tombstone in place on a replica that still has
+// it, but re-creates the content on a replica that has purged it — at another
+// position when something was inserted between the split parts meanwhile
+// (t="abc"; insert "yz" at 1; replace "bc"; two rounds; undo -> a,yz,bc on the
+// undoer, a,bc,yz on the peer). The trigger needs replicas in different purge
+// states, so such an undo/redo is only executed when nobody collects garbage or
+// every attached replica has no garbage left at all (all re-create alike).
+func GuardF33(r *Runner) Guard {
+	return func(d *document.Document, s Step) (Step, string) {
+		if r.P.Cfg.ClientNoGC {
+			return s, ""
+		}
+		restores := false
+		for _, h := range undoTop(d, s) {
+			switch op := h.Op.(type) {
+			case *operations.Edit:
+				if len(op.RestoreSpans()) > 0 || len(op.RetombstoneSpans()) > 0 {
+					restores = true
+				}
+			case *operations.TreeEdit:
+				if len(op.RestoreSpans()) > 0 || len(op.RetombstoneSpans()) > 0 {
+					restores = true
+				}
+			}
+		}
+		if !restores {
+			return s, ""
+		}
+		for _, q := range r.Peers {
+			if q.Attached && q.D.GarbageLen() > 0 {
+				return Step{}, "F33"
+			}
+		}
+		return s, ""
+	}
+}
